@@ -479,7 +479,7 @@ func main() {
 	var hs []hist
 	nRandom, maxFaults, permCfgs := 1100, 1, 2
 	if c.Thorough() {
-		nRandom, maxFaults, permCfgs = 12000, 2, 5
+		nRandom, maxFaults, permCfgs = 6000, 2, 4
 	}
 	// 1. scripts, fault-free, for every configuration
 	for _, k := range append(cfgs(), cfgT{}) {
